@@ -186,7 +186,10 @@ func (k *kase) faultEvidence(S *types.ValidatorSet) {
 	before := snapOf(LV).clone()
 	R := k.r.Range(0, 6)
 	const H = 7
-	st := consensus.NewStatus{ChainID: chainID, LastBlockHeight: H, LastValidators: LV, Validators: LV.Copy()}
+	// Validators = the set of the current height: the last one rotated by one block step
+	CV := LV.Copy()
+	CV.IncrementAccum(1)
+	st := consensus.NewStatus{ChainID: chainID, LastBlockHeight: H, LastValidators: LV, Validators: CV}
 	commit := func() *types.Commit {
 		pcs := make([]*types.Vote, len(LV.Validators))
 		i := k.r.Intn(len(pcs))
@@ -194,8 +197,7 @@ func (k *kase) faultEvidence(S *types.ValidatorSet) {
 		return &types.Commit{Precommits: pcs}
 	}
 	pub := func(s rset) crypto.PubKey {
-		_, v := LV.GetByAddress(s.V[s.Prop].Addr)
-		return v.PubKey
+		return LV.Validators[s.Prop].PubKey // snapshots keep the set's own order
 	}
 	W := LV.Copy()
 	for i := 0; i < R; i++ {
